@@ -10,7 +10,7 @@ from ..common import calls_in, construct, where
 from ..flow import Value, show, strparts, subterms
 from ..fold import Folder, NotConst
 from ..loader import AnalysisError, ClassInfo, FuncInfo, Program, walk_shallow
-from ..report import Report
+from ..report import Report, Undecided
 
 LINE_BREAKS_REF = r"\r\n|\r|\n"
 
@@ -114,7 +114,32 @@ def run(p: Program, rep: Report, tier: str) -> None:
             if pat[0] != "const" or not isinstance(pat[1], str):
                 rep.undecide("R19.1", f"re.split pattern is not a constant: {show(pat)}")
             elif len(itv[2]) > 2 or itv[3]:
-                rep.undecide("R19.1", f"re.split with maxsplit/flags: {show(itv)[:80]}")
+                # re.split(pattern, string, maxsplit=0, flags=0): a non-zero maxsplit (e.g. a flag constant passed in its position)
+                # leaves everything after that many breaks in one piece
+                import re as _re
+
+                kw_ = dict(itv[3])
+                ms = itv[2][2] if len(itv[2]) > 2 else kw_.get("maxsplit")
+                fl = itv[2][3] if len(itv[2]) > 3 else kw_.get("flags")
+
+                def _intval(t):
+                    if t is None:
+                        return 0
+                    if t[0] == "const" and isinstance(t[1], int):
+                        return int(t[1])
+                    if t[0] == "ext" and t[1].startswith("re.") and isinstance(getattr(_re, t[1][3:], None), int):
+                        return int(getattr(_re, t[1][3:]))
+                    return None
+
+                msv, flv = _intval(ms), _intval(fl)
+                if msv is not None and msv != 0:
+                    rep.violation("R19.1", construct(fn, text=f"re.split(..., maxsplit={show(ms)})"), where(fn),
+                                  f"the data is split at most {msv} times (third argument of re.split is maxsplit: {show(ms)}): the text after line break number {msv} stays in one piece and its "
+                                  "CR/LF are sent raw, so those lines reach the client without a `data:` prefix (dropped, or parsed as other fields)")
+                elif msv == 0 and flv == 0:
+                    judge_pattern(pat[1], "re.split")
+                else:
+                    rep.undecide("R19.1", f"re.split with maxsplit/flags: {show(itv)[:80]}")
             else:
                 judge_pattern(pat[1], "re.split")
         elif kind == "split" and itv[2] == (("const", "\n"),):
@@ -346,3 +371,31 @@ def run(p: Program, rep: Report, tier: str) -> None:
             else:
                 rep.violation("R19.5", construct(fn_, text=cons), where(fn_, node), msg)
     rep.require_instances("R19.5", 4)
+
+    # ---------------------------------------------------------------- R19.6 order of delivery: the hand-off rules of C06/R6.4
+    # (FIFO queue, one producer loop with one put per item, every dequeued item yielded exactly once before the next dequeue)
+    # are clauses of THIS property's last sentence; they are decided by the same code and reported here under R19.6.
+    from ..report import Report as _Report
+    from . import c06 as _c06
+
+    sub = _Report("C06", tier)
+    try:
+        _c06.run(p, sub, tier)
+        failed = None
+    except Undecided as e_:
+        failed = str(e_)
+    except Exception as e_:  # the C06 analysis is reported by its own check; here only the R6.4 verdicts are needed
+        failed = f"{type(e_).__name__}: {e_}"
+    n_bad = 0
+    for v_ in sub.violations:
+        if v_.rule == "R6.4":
+            n_bad += 1
+            rep.violation("R19.6", v_.construct, v_.where, v_.message + " (events are not delivered as, or in the order, they were yielded)")
+    for u_ in sub.undecided:
+        if u_.startswith("R6.4"):
+            rep.undecide("R19.6", u_[5:].strip())
+    for _ in range(max(0, sub.rule_instances.get("R6.4", {}).get("found", 0) - n_bad)):
+        rep.ok("R19.6", "hand-off order clause (C06/R6.4) holds")
+    if failed and not n_bad:
+        rep.undecide("R19.6", f"the hand-off analysis shared with C06 did not complete ({failed[:120]})")
+    rep.require_instances("R19.6", 6)
